@@ -55,6 +55,26 @@ EXPORT void* spqlios_keep_or_free(void* ptr, void* ptr2);
 #define CPU_SUPPORTS(xxxx) 0
 #endif
 
+#ifdef SPQLIOS_VERIF
+// verification hooks (compiled only with -DSPQLIOS_VERIF): CPU-feature mask and event buffer
+EXPORT int spqlios_verif_cpu_allows(const char* feature);
+EXPORT void spqlios_verif_set_cpu_mask(uint32_t deny_mask);  // bit0: avx2, bit1: fma, bit2: avx512*, bit3: other
+EXPORT void spqlios_verif_events_enable(uint64_t capacity);  // 0 disables and frees
+EXPORT uint64_t spqlios_verif_events_count(void);
+EXPORT const int64_t* spqlios_verif_events_data(void);  // records of 8 int64: kind, tid, seq, a0..a4
+EXPORT void spqlios_verif_events_clear(void);
+EXPORT void spqlios_verif_set_tid(int64_t tid);
+EXPORT void spqlios_verif_event(int64_t kind, int64_t a0, int64_t a1, int64_t a2, int64_t a3, int64_t a4);
+#ifdef __x86_64__
+#undef CPU_SUPPORTS
+#define CPU_SUPPORTS(xxxx) (spqlios_verif_cpu_allows(xxxx) && __builtin_cpu_supports(xxxx))
+#endif
+#define SPQLIOS_VERIF_EVENT(kind, a0, a1, a2, a3, a4) \
+  spqlios_verif_event((kind), (int64_t)(a0), (int64_t)(a1), (int64_t)(a2), (int64_t)(a3), (int64_t)(a4))
+#else
+#define SPQLIOS_VERIF_EVENT(kind, a0, a1, a2, a3, a4) ((void)0)
+#endif
+
 /** @brief returns the n bits of value in reversed order */
 EXPORT uint32_t revbits(uint32_t nbits, uint32_t value);
 
